@@ -86,6 +86,7 @@ func run(c *vf.Ctx) {
 			}
 		}
 		w.staleCounts()
+		w.parallelTwins()
 		if cmd.AndX {
 			lat := w.lat
 			for _, ax := range andxValues() {
@@ -369,6 +370,87 @@ func (w *worker) eval(a *refsmb.Assign, r *explore.Run, ax *andx.AndX) {
 			w.decoded("-modulo-andx", label, want, d2, stripped)
 		}
 	}
+}
+
+// parallelTwins: what a structure encodes to does not depend on what OTHER goroutines encode at the same time
+// (each on structures of its own - the caller shares nothing). The single-deviation assignments of the
+// structure are encoded once sequentially, then by four goroutines at once, each walking the list from another
+// starting point; every result must be the sequential one. This part SAMPLES schedules (free-running
+// goroutines): it can miss a shared scratch variable, it cannot report one that is not there. A package-level
+// variable without any lock is invisible to the controlled scheduler, which is why it is done this way.
+func (w *worker) parallelTwins() {
+	cmd := w.cmd
+	var as []*refsmb.Assign
+	for _, full := range []bool{false, true} {
+		base := cmd.Zero(w.lat)
+		if full {
+			base = cmd.FullAssign(w.lat)
+		}
+		as = append(as, base)
+		for _, f := range cmd.Fields {
+			if !f.Free() {
+				continue
+			}
+			for k := 1; k <= len(w.lat[f.Pos]) && k <= 2; k++ {
+				as = append(as, base.With(f.Pos, k))
+			}
+		}
+	}
+	var want [][]byte
+	var ok []*refsmb.Assign
+	for _, a := range as {
+		x, err := a.Build()
+		if err != nil {
+			continue
+		}
+		b, merr, pan, _ := smbgen.Marshal(x)
+		if merr != nil || pan {
+			continue
+		}
+		ok = append(ok, a)
+		want = append(want, b)
+	}
+	if len(ok) < 2 {
+		return
+	}
+	const G, rounds = 4, 6
+	type bad struct {
+		label    string
+		got, exp []byte
+	}
+	bads := make([]*bad, G)
+	var wg sync.WaitGroup
+	for g := 0; g < G; g++ {
+		wg.Add(1)
+		go func(g int) {
+			defer wg.Done()
+			for r := 0; r < rounds && bads[g] == nil; r++ {
+				for i := range ok {
+					j := (i + g*len(ok)/G) % len(ok)
+					x, err := ok[j].Build()
+					if err != nil {
+						continue
+					}
+					b, merr, pan, _ := smbgen.Marshal(x)
+					if merr != nil || pan || !bytes.Equal(b, want[j]) {
+						bads[g] = &bad{ok[j].Label(), b, want[j]}
+						break
+					}
+				}
+			}
+		}(g)
+	}
+	wg.Wait()
+	var first *bad
+	for _, b := range bads {
+		if b != nil && first == nil {
+			first = b
+		}
+	}
+	w.c.Case([]byte(cmd.Name), []byte("parallel-twins"))
+	w.check(w.key("marshal/same-bytes-while-other-goroutines-marshal-structures-of-their-own"), first == nil, func() string {
+		return fmt.Sprintf("%s{%s}.Marshal() = %s while three other goroutines were marshalling other %s values; alone it gives %s", cmd.Name, first.label, vf.HexS(first.got), cmd.Name, vf.HexS(first.exp))
+	})
 }
 
 // staleStringLengths zeroes the Length member of every SMB_STRING reachable from v whose Buffer is not
